@@ -110,6 +110,10 @@ theorem pcFrom_eq (p0 : Nat) (obs : Nat → Obs) (n : Nat) :
       · rw [if_neg ht, if_neg (by omega)]
     · rw [if_neg h, if_neg h, if_neg (by omega)]
 
+/-- HISTORICAL (defect D31, found by this check, repaired in /repo by `fix: stepper reset also clears the patience
+counter`): the `_Stepper.reset` of the original code left `patience_count` untouched. Not part of the model. -/
+def rtbResetOld (s : St) : St := ⟨0, s.pc, true⟩
+
 /-! ### what a controller step does (both controllers share this shape; `halt` is the
 controller-specific immediate cause) -/
 structure IsCtl (stepf : St → Obs → St) (c : Cfg) (halt : Obs → Bool) : Prop where
